@@ -33,7 +33,7 @@ from contracts.sysstub import Lin, SysStub, patched
 from vk import kit as K
 from vk import loopcut, npshim
 from vk import sym as S
-from vk.registry import bounded, contract
+from vk.registry import bounded, contract, static
 
 LEVEL = "proof"
 TRUSTED = [
@@ -72,7 +72,7 @@ class _Helper(loopcut.Helper):
         if name == "converged_fixed_point":
             return False  # invariant
         v = _havoc(name, old)
-        self.prev[name] = v
+        self.prev[name] = v.copy() if isinstance(v, np.ndarray) else v  # the loop body updates la_F1 in place
         return v
 
     def assume_inv(self, loc):
@@ -101,14 +101,17 @@ def _spec(sysm, lin, q0, u0):
     return np.asarray(A).view(np.ndarray), f, rhs_c
 
 
-def _cic(mode, friction, nF=2):
+def _cic(mode, friction, nF=2, layout=None):
+    """layout = (1, 1): an OPEN frictional contact assembled before a CLOSED frictional one (one friction direction each):
+    the index bookkeeping between the active sets and the global arrays is exercised"""
+
     def c(k):
         if not k.sym:
             raise K.Reject("symbolic only")
         k.covers(base.consistent_initial_conditions, base.compute_I_F)
         lin = Lin(k)
         # the frictional variant is kept small (one velocity, one bilateral constraint): the block structure is covered by the frictionless one
-        sysm = SysStub(k, friction=friction, sizes=dict(nq=1, nu=1, nla_gamma=0, nla_c=0, nla_tau=1, nla_F=nF) if friction else None)
+        sysm = SysStub(k, friction=friction, sizes=dict(nq=1, nu=1, nla_gamma=0, nla_c=0, nla_tau=1, nla_F=nF) if friction else None, layout=layout)
         opts = SolverOptions()
         opts.fixed_point_atol = S.var("fp_atol")
         k.assume(opts.fixed_point_atol > 0)
@@ -125,7 +128,11 @@ def _cic(mode, friction, nF=2):
             # instead of re-discovering it by forking (all other cases are covered by the `entry` contract)
             qc, uc = sysm.step_callback(sysm.t0, sysm.q0, sysm.u0)
             with npshim.active(True):
-                for v in list(sysm.g_N(sysm.t0, qc)) + list(sysm.g_N_dot(sysm.t0, qc, uc)):
+                closed = list(sysm.g_N(sysm.t0, qc)) + list(sysm.g_N_dot(sysm.t0, qc, uc))
+                if layout is not None:
+                    k.assume(sysm.g_N(sysm.t0, qc)[0] > 1)  # contact 0 is open
+                    closed = [sysm.g_N(sysm.t0, qc)[1], sysm.g_N_dot(sysm.t0, qc, uc)[1]]
+                for v in closed:
                     k.assume(v <= ATOL)
                     k.assume(v >= -ATOL)
         helper = _Helper(mode, k)
@@ -191,14 +198,25 @@ def _cic(mode, friction, nF=2):
                 k.prove_lt(f"returned u_dot0[{i}] within fixed_point_atol of the solved iterate (lower)", -diff[i], opts.fixed_point_atol)
             for i in range(sysm.nla_N):
                 k.prove_le(f"la_N0[{i}] >= 0", 0, la_N0[i])
-            if sysm.nla_F:
+            if sysm.nla_F and layout is None:
                 k.prove_le("friction force inside the Coulomb disk: |la_F0|^2 <= (mu la_N0)^2", la_F0 @ la_F0, (sysm.mu * la_N0[0]) ** 2)
+            if layout is not None:
+                k.prove_eq("the open contact carries no normal force", la_N0[0], 0)
+                k.prove_eq("the open contact carries no friction force", la_F0[0], 0)
+                k.prove_le("closed contact: friction force inside ITS Coulomb disk |la_F|^2 <= (mu_1 la_N[1])^2", la_F0[1] * la_F0[1], (sysm.mus[1] * la_N0[1]) ** 2)
+                # slip of the closed contact itself decides between stick and slip and gives the direction
+                gF = sysm.gamma_F(t0, q0, u0)
+                slipping = (S._coerce(gF[1]) > ATOL) | (S._coerce(gF[1]) < -ATOL)
+                fixedF = S._coerce(la_F0[1]) == S._coerce(helper.prev["la_F1"][0])
+                k.prove("closed sliding contact, projection fixed point => friction force opposes ITS slip", (slipping & fixedF).implies(S._coerce(la_F0[1] * gF[1]) <= 0))
+                k.prove("closed sliding contact, projection fixed point, la_N >= 0 => |la_F| = mu_1 la_N[1]", (slipping & fixedF).implies(S._coerce(la_F0[1] * la_F0[1]) == S._coerce((sysm.mus[1] * la_N0[1]) ** 2)))
             # fixed point of the projection: complementarity on acceleration level
             la_prev = helper.prev["la_N1"]
             ud_prev = helper.prev["x1"][:nu]
             gNdd = sysm.g_N_ddot(t0, q0, u0, ud_prev)
-            fixed = S.conj([S._coerce(la_N0[i]) == la_prev[i] for i in range(sysm.nla_N)])
-            for i in range(sysm.nla_N):
+            active = list(range(sysm.nla_N)) if layout is None else [1]  # global indices of the closed contacts; la_prev is indexed by position in this list
+            fixed = S.conj([S._coerce(la_N0[i]) == la_prev[j] for j, i in enumerate(active)])
+            for i in active:
                 k.prove(f"projection fixed point => g_N_ddot[{i}] >= 0", fixed.implies(S._coerce(gNdd[i]) >= 0))
                 k.prove(f"projection fixed point => la_N[{i}] g_N_ddot[{i}] = 0", fixed.implies(S._coerce(la_N0[i] * gNdd[i]) == 0))
 
@@ -210,6 +228,7 @@ for _mode in ("entry", "iter", "exhausted"):
     # one friction direction in the quick tier, the Coulomb disk (two directions) in the thorough tier
     contract("C16", f"consistent_initial_conditions[friction=True,directions=1]/{_mode}", samples=0, replayable=False, timeout=60, max_paths=4000)(_cic(_mode, True, 1))
     contract("C16", f"consistent_initial_conditions[friction=True,directions=2]/{_mode}", samples=0, replayable=False, timeout=60, max_paths=6000, tiers=("thorough",))(_cic(_mode, True, 2))
+contract("C16", "consistent_initial_conditions[open frictional contact before a closed one]/iter", samples=0, replayable=False, timeout=60, max_paths=6000)(_cic("iter", True, 1, layout=(1, 1)))
 
 
 # --------------------------------------------------------------------------- bounded native mechanisms
@@ -382,3 +401,11 @@ def b_native(tier, seed):
             seen.add(f["what"])
             out.append(f)
     return {"cases": cases, "distinct": cases, "failures": out[:12], "bound": f"{reps} random instances of 11 real mechanisms (pendulum with joint/actuator/compliance, balls on a plane: open, resting, sliding, penetrating, approaching), residual tolerance 1e-6"}
+
+
+# --------------------------------------------------------------------------- several contacts: index bookkeeping
+@static("C16", "compute_I_F/exhaustive")
+def s_compute_I_F(tier):
+    from contracts.multicontact import exhaustive_compute_I_F
+
+    return exhaustive_compute_I_F(tier)
